@@ -53,6 +53,7 @@ func (s *socket) RecvMsg(e any) (msg unixsocket.Msg, err error) {
 	if err := s.decoder.Decode(e); err != nil {
 		return msg, fmt.Errorf("recv msg: decode: %w", err)
 	}
+	verifMsg("recv", e)
 	return msg, nil
 }
 
@@ -68,5 +69,6 @@ func (s *socket) SendMsg(e any, msg unixsocket.Msg) error {
 	if err := s.Socket.SendMsg(s.sendBuff.Bytes(), msg); err != nil {
 		return fmt.Errorf("send msg: %w", err)
 	}
+	verifMsg("send", e)
 	return nil
 }
